@@ -14,7 +14,7 @@ func init() {
 }
 
 func runC09(p *core.Prog, r *core.Report) {
-	r.Explain = "Decides that (re-)indexing consults the removal state and that removal marks are not lost, on all CFG paths: (R1) DB.put writes metadata and counters only after the container was seen not removed and db.exists answered 'absent' with nil or a not-found-class error — tombstoned, expired and locked outcomes return; (R2) the batch put used by the metabase rebuild continues after a failed put only for the three tolerated outcomes (already removed, expired, locked) and otherwise aborts; the rebuild inserts only through that batch put, and db.put has only the tabled callers; (R3) a tombstone writes the garbage mark of every target on every path through its loop (stored or not — this is what lets GC collect a leftover blob and keeps a late or re-indexed target removed); (R4) garbage keys are built / deleted only in the tabled functions (a mark disappears only together with the object's metadata or by explicit revival); (R5) the shard deletes from blob storage every id whose metadata the metabase removed — no path through that loop skips the blob Delete — so that no orphan blob is left for a later resync to re-index. Not covered: GC / flush / crash interleavings; the write-cache flush-versus-delete window (flushSingle and deleteObjs share no lock, so no static exclusion argument exists)."
+	r.Explain = "Decides that (re-)indexing consults the removal state and that removal marks are not lost, on all CFG paths: (R1) DB.put writes metadata and counters only after the container was seen not removed and db.exists answered 'absent' with nil or a not-found-class error — tombstoned, expired and locked outcomes return; (R2) the batch put used by the metabase rebuild continues after a failed put only for the three tolerated outcomes (already removed, expired, locked) and otherwise aborts; the rebuild inserts only through that batch put, and db.put has only the tabled callers; (R3) a tombstone writes the garbage mark of every target on every path through its loop (stored or not — this is what lets GC collect a leftover blob and keeps a late or re-indexed target removed); (R4) garbage keys are built / deleted only in the tabled functions (a mark disappears only together with the object's metadata or by explicit revival); (R5) the shard deletes from blob storage every id whose metadata the metabase removed — no path through that loop skips the blob Delete — so that no orphan blob is left for a later resync to re-index. (R6) deleteMetadata removes a garbage mark only with the entry it marks; (R7) the resync handler queues every decoded object before it returns. Not covered: GC / flush / crash interleavings; the write-cache flush-versus-delete window (flushSingle and deleteObjs share no lock, so no static exclusion argument exists)."
 	fns := p.FuncsIn("pkg/local_object_storage/metabase")
 	put := p.Func(mbDB + "put")
 	if put == nil {
@@ -166,4 +166,38 @@ func runC09(p *core.Prog, r *core.Report) {
 	// ---------------- R5 no orphan blob is left to be re-indexed
 	r5 := r.Rule("C09.R5", "Shard.deleteObjs deletes from blob storage every id the metabase removed (a blob left behind is re-indexed by the next resync once the tombstone is gone)", 2)
 	blobDeleteForEveryRemoved(p, r, r5)
+	// ---------------- R6 a mark goes only together with what it marks
+	r6 := r.Rule("C09.R6", "deleteMetadata removes a garbage mark only when the marked entry goes with it (shared with C01.R7): a removed split object's parent does not come back while its parts are still stored", 1)
+	markGoesWithEntry(p, r, r6)
+	// ---------------- R7 the rebuild indexes every blob it is handed
+	r7 := r.Rule("C09.R7", "the resync handler puts every decoded object into the batch before it returns (the only returns without it hand the object's error to the iteration-error callback): no blob — a tombstone in particular — is left out of the rebuilt metabase", 2)
+	if hf := p.Func("(*" + mb + "resyncHandler).handle"); hf == nil {
+		r.Fatalf("C09.R7: resyncHandler.handle not found")
+	} else {
+		queued := core.Guard{Name: "object-queued", Comps: []core.Comp{{Result: -1, Kind: core.Executed}}, Instr: func(in ssa.Instruction) bool {
+			st, ok := in.(*ssa.Store)
+			if !ok {
+				return false
+			}
+			fa, ok := st.Addr.(*ssa.FieldAddr)
+			if !ok || core.FieldAddrName(fa) != "("+mb+"resyncHandler).batch" {
+				return false
+			}
+			c, isC := st.Val.(*ssa.Call)
+			return isC && core.CalleeName(c) == "builtin.append"
+		}}
+		n := core.CheckEffectsFn(p, r7, hf, core.EffectRule{Guards: []core.Guard{queued}, Effect: func(_ *core.Prog, in ssa.Instruction) (string, bool) {
+			ret, ok := in.(*ssa.Return)
+			if !ok || len(ret.Results) != 1 {
+				return "", false
+			}
+			if c, isC := ret.Results[0].(*ssa.Call); isC && strings.HasSuffix(core.CalleeName(c), ".onError") {
+				return "", false // the object could not be decoded: reported to the caller's error handler
+			}
+			return "return", true
+		}})
+		if n == 0 {
+			r.Fatalf("C09.R7: resyncHandler.handle has no ordinary return")
+		}
+	}
 }
